@@ -1,7 +1,7 @@
 (* C04 — non-vacuity examples and sanity evaluations. *)
 From Coq Require Import ZArith List Bool Lia.
 Import ListNotations.
-From GV Require Import Common.Wire Common.PyInt gen.Gen_array C04.Model C04.Lemmas.
+From GV Require Import Common.Wire Common.PyInt gen.Gen_array C04.Model C04.Lemmas C04.Lemmas2.
 Open Scope Z_scope.
 
 Definition ex_shape := [3; 4].
@@ -66,3 +66,26 @@ Example ex_indexed :
 Proof. reflexivity. Qed.
 Example ex_indexed_hyps : indices_ok [2; 3; 4] [None; Some 1; None] /\ view_ok (reduced_shape [2; 3; 4] [None; Some 1; None]) [VSlice (Slice (Some 1) None None); VInt 0] = true.
 Proof. split; [simpl; lia|reflexivity]. Qed.
+
+(* ---- round 4 ---- *)
+(* "above the average": {x} * size > sum({x}) on [1; 2; 30]; the view [0:2] applied afterwards / pushed inside *)
+Definition ex_above_mean : bexpr := BGt (AMul AX ASize) (ASum AX).
+Example ex_parsed_view : parsed_mask_view ex_above_mean [1; 2; 30] [0; 1] = [false; false]. Proof. vm_compute. reflexivity. Qed.
+Example ex_parsed_push : parsed_mask_pushdown ex_above_mean [1; 2; 30] [0; 1] = [false; true]. Proof. vm_compute. reflexivity. Qed.
+(* a non-trivial element-wise leaf meets the hypothesis of parsed_view_pushdown_elementwise, with positions in range *)
+Definition ex_elementwise : bexpr := BAnd (BGt (AMul AX (AConst 2)) (AConst 3)) (BNot (BEq AX (AConst 30))).
+Example ex_elementwise_hyp : belementwise ex_elementwise = true /\ Lemmas2.in_range (length [1; 2; 30]) [2; 0; 2].
+Proof. split; [reflexivity|repeat constructor; simpl; lia]. Qed.
+Example ex_elementwise_run : parsed_mask_pushdown ex_elementwise [1; 2; 30] [2; 0; 2] = [false; false; false]
+                             /\ parsed_mask_view ex_elementwise [1; 2; 4] [2; 0; 2] = [true; false; true].
+Proof. split; vm_compute; reflexivity. Qed.
+(* cumsum, roll, arange *)
+Example ex_cumsum_roll : aeval (AAdd (ACumsum AX) (ARoll 1 AArange)) [5; 1; 2] = [5 + 2; 6 + 0; 8 + 1]. Proof. vm_compute. reflexivity. Qed.
+(* categories and codes of ['c'; 'a'; 'b'; 'a'] and of its view [2:] with inherited / recomputed categories *)
+Example ex_cat_full : cat_full [99; 97; 98; 97] = ([97; 98; 99], [2; 0; 1; 0]). Proof. vm_compute. reflexivity. Qed.
+Example ex_cat_view : cat_view [2; 3] [99; 97; 98; 97] = ([97; 98; 99], [1; 0]). Proof. vm_compute. reflexivity. Qed.
+Example ex_cat_view_re : cat_view_recomputed [0; 2] [99; 97; 98; 97] = ([98; 99], [1; 0]). Proof. vm_compute. reflexivity. Qed.
+(* a session: view first, then full, then another view *)
+Example ex_session : session (cat_answer [99; 97; 98; 97]) [RView [0; 2]; RFull; RView [3]]
+                     = [([97; 98; 99], [2; 1]); ([97; 98; 99], [2; 0; 1; 0]); ([97; 98; 99], [0])].
+Proof. vm_compute. reflexivity. Qed.
